@@ -68,12 +68,14 @@ func runC15(c *Ctx) {
 	c.rule("parse-args", "integer parsers are called with base 0 and the integral slice parsers trim whitespace around each element", 4)
 	c.rule("errors-propagate", "every error returned to the parse package by strconv / the scanner / Unquote / a callback is tested and leads to a non-nil error result (no path returns a value together with a swallowed error)", 15)
 	c.rule("syntax-agree", "writers (flag helpers' String) quote with strconv.Quote and separate with ',' (and ':' for maps); readers unquote with strconv.Unquote and split on the same runes; unsigned slices are formatted with FormatUint and parsed with ParseUint, signed ones with FormatInt/ParseInt, base 10 out / base 0 in", 8)
+	c.rule("empty-forms", "the empty string is a legitimate map key (the splitter never tests the key text against \"\" to decide whether a key was read) and the empty text is the canonical form of an empty collection (strings.Split-based parsers answer it with an empty result)", 3)
 	c.rule("pair-state-reset", "after the map splitter hands a (key, value) pair to its callback, both pieces of state are reset to \"\" on every path that continues parsing (a value must not leak into a later key that has none)", 2)
 	c.rule("dups-rejected", "Map and StringSet report an error for a key that is already present, before storing", 2)
 
 	w := c.W
 	c15Narrowing(c)
 	c15PairStateReset(c, "pair-state-reset")
+	c15EmptyForms(c, "empty-forms")
 
 	// ---- parse-args ------------------------------------------------------------------
 	for _, f := range w.funcsIn("parse") {
@@ -664,5 +666,130 @@ func c15PairStateReset(c *Ctx, rule string) {
 				c.undecided(rule, id, st.call.Pos(), "the %s handed to the callback is neither loop-carried state nor a variable: %s", what, canon(arg))
 			}
 		}
+	}
+}
+
+// c15EmptyForms: the empty string is a legitimate key, and the empty text is
+// the canonical form of an empty collection.
+//  (a) the map splitter never compares the key it hands to its callback with the
+//      constant "" (that would make "" mean 'no key' and the printed form
+//      `"":"v"` unreadable);
+//  (b) a parser that cuts its input with strings.Split (which returns one empty
+//      element for the empty string) and parses every element first tests the
+//      input for emptiness and returns an empty result.
+func c15EmptyForms(c *Ctx, rule string) {
+	w := c.W
+	sm := w.fn("parse", "splitMap")
+	if c.need(sm != nil, "parse.splitMap") {
+		cb := sm.Params[len(sm.Params)-1]
+		keyVals := map[ssa.Value]bool{}
+		fns := append([]*ssa.Function{sm}, sm.AnonFuncs...)
+		for _, f := range fns {
+			for _, i := range allInstrs(f) {
+				call, ok := i.(*ssa.Call)
+				if !ok || call.Call.IsInvoke() || len(call.Call.Args) != 2 {
+					continue
+				}
+				v := call.Call.Value
+				isCB := v == ssa.Value(cb)
+				if ld, ok := v.(*ssa.UnOp); ok {
+					if fv, ok := ld.X.(*ssa.FreeVar); ok && fv.Name() == cb.Name() {
+						isCB = true
+					}
+				}
+				if isCB {
+					keyVals[call.Call.Args[0]] = true
+					// phis feeding it
+					if ph, ok := call.Call.Args[0].(*ssa.Phi); ok {
+						for _, e := range ph.Edges {
+							keyVals[e] = true
+						}
+					}
+				}
+			}
+		}
+		bad := token.NoPos
+		for _, f := range fns {
+			for _, i := range allInstrs(f) {
+				b, ok := i.(*ssa.BinOp)
+				if !ok || (b.Op != token.EQL && b.Op != token.NEQ) {
+					continue
+				}
+				for _, pr := range [][2]ssa.Value{{b.X, b.Y}, {b.Y, b.X}} {
+					if s, ok := constString(pr[1]); ok && s == "" {
+						isKey := keyVals[pr[0]]
+						for kv := range keyVals {
+							if sameValue(kv, pr[0]) {
+								isKey = true
+							}
+						}
+						if isKey {
+							bad = b.Pos()
+						}
+					}
+				}
+			}
+		}
+		pos := sm.Pos()
+		if bad.IsValid() {
+			pos = bad
+		}
+		c.check(len(keyVals) > 0 && !bad.IsValid(), rule, relName(sm)+"#key-text", pos, "whether a key was read is never decided by comparing the key's text with \"\"",
+			"the map splitter compares the key it hands to its callback with \"\": the empty string then means 'no key', so the printed form of a map with an empty-string key (\"\":\"v\") is rejected or dropped")
+	}
+	n := 0
+	for _, f := range w.funcsIn("parse") {
+		if f.Parent() != nil || len(f.Blocks) == 0 {
+			continue
+		}
+		for _, i := range allInstrs(f) {
+			call, ok := i.(*ssa.Call)
+			if !ok || calleeFullName(call) != "strings.Split" {
+				continue
+			}
+			n++
+			c.analysed(relName(f))
+			s := call.Call.Args[0]
+			// an emptiness test of s whose true branch returns a nil error, evaluated before the split
+			okE := false
+			for _, j := range allInstrs(f) {
+				b, ok := j.(*ssa.BinOp)
+				if !ok || b.Op != token.EQL || !domI(b, call) {
+					continue
+				}
+				emptyTest := false
+				if z, ok := constString(b.Y); ok && z == "" {
+					if sameValue(b.X, s) {
+						emptyTest = true
+					}
+					if tc, ok := b.X.(*ssa.Call); ok && calleeFullName(tc) == "strings.TrimSpace" && sameValue(tc.Call.Args[0], s) {
+						emptyTest = true
+					}
+				}
+				if z, ok := constInt(b.Y); ok && z == 0 {
+					if lc, ok := b.X.(*ssa.Call); ok && calleeFullName(lc) == "builtin.len" && sameValue(lc.Call.Args[0], s) {
+						emptyTest = true
+					}
+				}
+				if !emptyTest {
+					continue
+				}
+				for _, r := range returnsOf(f) {
+					rv := retVals(r)
+					if !isNilConst(rv[len(rv)-1]) {
+						continue
+					}
+					for _, ec := range condsDominating(r.Block()) {
+						if ec.Cond == ssa.Value(b) && ec.Val {
+							okE = true
+						}
+					}
+				}
+			}
+			c.check(okE, rule, relName(f)+"#empty-input", call.Pos(), "the empty input is answered with an empty result before strings.Split", "the input is cut with strings.Split without handling the empty string first: the canonical text of an empty collection (\"\") yields one empty element and a parse error instead of the empty collection")
+		}
+	}
+	if n == 0 {
+		c.okTrivial(rule, "parse#no-split", 0, "no strings.Split-based parser in the parse package")
 	}
 }
